@@ -214,6 +214,20 @@ def build_zoo(doc, note=None):
         return ml.multileader
 
     put(attempt(mleader))
+
+    def mleader_alias():
+        # MLEADER is the second registered name of the same entity: same data, other type name
+        import copy
+        src = z["MULTILEADER"]
+        attribs = {k: v for k, v in src.dxfattribs().items() if k not in ("handle", "owner")}
+        e = msp.new_entity("MLEADER", attribs)
+        e.context = copy.deepcopy(src.context)
+        e.arrow_heads = copy.deepcopy(src.arrow_heads)
+        e.block_attribs = copy.deepcopy(src.block_attribs)
+        return e
+
+    if "MULTILEADER" in z:
+        put(attempt(mleader_alias), "MLEADER")
     put(attempt(lambda: msp.add_mline([(0, 0), (1, 0), (1, 1)])))
     put(attempt(lambda: msp.add_helix(1, 1, 2)))
     put(attempt(lambda: doc.layout("Layout1").add_viewport((0, 0), (1, 1), (0, 0), 1)))
@@ -808,6 +822,8 @@ def collect_schemas(ctx=None):
             stats["no_instance"].append(dxftype)
         else:
             populate(e)
+            if hasattr(e, "sat") and hasattr(e, "sab"):
+                e.sat = SAT  # the R2018 instance carries SAB data; versions below R2013 export the SAT form
             for ver in VERSIONS:
                 try:
                     tr = trace_export(e, ver)
@@ -1249,6 +1265,9 @@ def x3_cases(ctx):
     data = schemas(ctx)
     doc = ezdxf.new("R2018")
     zoo = build_zoo(doc)
+    for e in zoo.values():
+        if hasattr(e, "sat") and hasattr(e, "sab"):
+            e.sat = SAT
     load_docs = {v: ezdxf.new(VNAME[v]) for v in VERSIONS}
     exp_cases, load_cases = [], []
     shape_changes = 0
@@ -1704,6 +1723,31 @@ def attr_equal(attr, before, after) -> bool:
     return False
 
 
+# what a DXF R12 VIEWPORT can hold: five group codes plus the MVIEW XDATA list written by Viewport.dxftags()
+R12_VIEWPORT = {"center", "width", "height", "status", "id", "view_target_point", "view_direction_vector", "view_twist_angle",
+                "view_height", "view_center_point", "perspective_lens_length", "front_clip_plane_z_value",
+                "back_clip_plane_z_value", "render_mode", "circle_zoom", "ucs_icon", "snap_angle", "snap_base_point",
+                "snap_spacing", "grid_spacing", "flags", "layer", "linetype", "color", "paperspace"}
+R12_VIEWPORT_FLAGS = 0x80 | 0x100 | 0x200 | 0x400 | 0x800  # fast zoom, snap, grid, isometric snap, hide plot
+
+
+def special_rule(t, name, ver, before, after):
+    """(accepted, reason) for attributes whose representation is narrower than the attribute, else None"""
+    if t == "LAYOUT" and name == "plot_layout_flags" and isinstance(before, int) and isinstance(after, int):
+        return (before & ~1024) == (after & ~1024), "bit 1024 (model space) of plot_layout_flags is computed at export"
+    if t == "VIEWPORT" and ver == "AC1009":
+        if name not in R12_VIEWPORT:
+            return True, "not representable in a DXF R12 VIEWPORT (five group codes + MVIEW XDATA)"
+        if name == "flags" and isinstance(before, int) and isinstance(after, int):
+            return (before & R12_VIEWPORT_FLAGS) == (after & R12_VIEWPORT_FLAGS), "DXF R12 MVIEW XDATA holds five of the status flags"
+        if name in ("view_center_point", "snap_base_point", "snap_spacing", "grid_spacing"):
+            try:
+                return (fbits(before[0]) == fbits(after[0]) and fbits(before[1]) == fbits(after[1])), "2D values in the MVIEW XDATA"
+            except Exception:  # noqa
+                return None
+    return None
+
+
 def min_export_versions():
     from ezdxf.entities import factory
 
@@ -1746,6 +1790,11 @@ def compare_docs(ctx, stream, before, after, ver: str, fmt: str, rep: dict, clas
             v2 = a["attrs"].get(name)
             if attr_equal(attr, v, v2):
                 continue
+            rule = special_rule(t, name, ver, v, v2)
+            if rule is not None:
+                if rule[0]:
+                    ctx.hist(stream, "by design: " + rule[1][:50])
+                    continue
             if name == "owner" and (ver == "AC1009" or v is None):
                 # DXF R12 has no owner tags; an unset owner is assigned by the table / section at export
                 ctx.hist(stream, "owner assigned by the container")
